@@ -27,6 +27,7 @@ const (
 	KSync    = 4
 	KNoEnc   = 0xEE // the codec refuses to encode this kind
 	KTrigger = 5    // local: makes a sender actor emit a burst
+	KSlow    = 6    // the codec takes slowDecode to decode it (a large / expensive user payload): acceptcollision.go
 )
 
 type XMsg struct {
@@ -37,6 +38,9 @@ type XMsg struct {
 }
 
 type xcodec struct{}
+
+// how long xcodec.Decode takes for a KSlow payload (user code runs inside the connection's reader actor)
+var slowDecode atomic.Int64
 
 var errNoEnc = errors.New("xcodec: refuses to encode")
 
@@ -64,6 +68,9 @@ func (xcodec) Encode(message vivid.Message) ([]byte, error) {
 func (xcodec) Decode(b []byte) (vivid.Message, error) {
 	if len(b) < 15 || b[0] != 'V' || b[1] != 'X' {
 		return nil, errors.New("xcodec: not an XMsg")
+	}
+	if b[2] == KSlow {
+		time.Sleep(time.Duration(slowDecode.Load()))
 	}
 	return &XMsg{Kind: b[2], Sender: binary.BigEndian.Uint32(b[3:]), Seq: binary.BigEndian.Uint64(b[7:]), Data: append([]byte(nil), b[15:]...)}, nil
 }
@@ -122,6 +129,8 @@ type SysEvents struct {
 	ReadFailed []string     // ConnectionReadFailedHandler calls (fatal flag + error text)
 	Oversize   []uint64     // "invalid message length" warnings of the connection readers (length attribute)
 	Trace      []string     // sender-side events in publication order: "cf<n>" "sf" "ok" "dl<sender>:<seq>"
+	ListenDelays []time.Duration // "server listener listen failed, restart later": the delay of every failed attempt to listen
+	Logged     []string     // the last warnings / errors the system logged (capLogger.keep)
 }
 
 func (e *SysEvents) snapshotCounts() (df, rc, cf, sf, st, dl, rf, tr int) {
@@ -135,8 +144,38 @@ type capLogger struct{ ev *SysEvents }
 
 func (l capLogger) Debug(string, ...any) {}
 func (l capLogger) Info(string, ...any)  {}
-func (l capLogger) Error(string, ...any) {}
+func (l capLogger) Error(message string, args ...any) { l.keep("E", message, args) }
+
+// keep: the last warnings / errors the system logged (diagnostics in monitor details only)
+func (l capLogger) keep(level, message string, args []any) {
+	s := level + " " + message
+	for _, a := range args {
+		if at, ok := a.(slog.Attr); ok {
+			s += fmt.Sprintf(" %s=%v", at.Key, at.Value.Any())
+		}
+	}
+	if len(s) > 400 {
+		s = s[:400] + "..."
+	}
+	l.ev.mu.Lock()
+	if len(l.ev.Logged) >= 64 {
+		l.ev.Logged = append(l.ev.Logged[:0], l.ev.Logged[32:]...)
+	}
+	l.ev.Logged = append(l.ev.Logged, fmt.Sprintf("%s %s", time.Now().Format("15:04:05.000"), s))
+	l.ev.mu.Unlock()
+}
 func (l capLogger) Warn(message string, args ...any) {
+	l.keep("W", message, args)
+	if message == "server listener listen failed, restart later" {
+		for _, a := range args {
+			if at, ok := a.(slog.Attr); ok && at.Key == "delay" {
+				l.ev.mu.Lock()
+				l.ev.ListenDelays = append(l.ev.ListenDelays, at.Value.Duration())
+				l.ev.mu.Unlock()
+			}
+		}
+		return
+	}
 	if message != "invalid message length" {
 		return
 	}
